@@ -18,4 +18,4 @@ cp /tmp/$id.patch /verif/seeded/$id/patch.diff
 cp $d/demo_$p.py /verif/seeded/$id/
 git -C /repo apply --check /verif/seeded/$id/patch.diff || { echo "patch does not apply to /repo"; exit 1; }
 (cd /verif && VERIF_REPO=$d ./check $p 2>&1 | tail -4) | tee /tmp/$id.check.log
-python3 /verif/tools/py2coq/gen.py /repo /verif/coq/Gen Murmur3 KeyCheck Rendezvous CallSites Handlers Wrappers PoolLocks Subscripts Aliases >/dev/null
+python3 /verif/tools/py2coq/gen.py /repo /verif/coq/Gen Murmur3 KeyCheck Rendezvous CallSites Handlers Wrappers PoolLocks Subscripts Aliases Fallback >/dev/null
